@@ -915,6 +915,15 @@ fn dump<'tcx>(tcx: TyCtxt<'tcx>) -> J {
             v.push(("captures", J::Arr(caps)));
         }
         v.push(("mir", cx.body_j()));
+        // promoted constants of this body (`&(1..=N)`, `&None`, ...): dumped as bodies of their own so that a rule can read how
+        // the constant was built
+        let proms = tcx.promoted_mir(did);
+        let mut pj = Vec::new();
+        for pb in proms.iter() {
+            let pcx = Cx { tcx, body: pb, def: did, typing_env };
+            pj.push(pcx.body_j());
+        }
+        v.push(("promoted", J::Arr(pj)));
         bodies.push(obj(v));
     }
 
